@@ -158,7 +158,7 @@ MANIFEST_TEXT["C02"] = dict(
          "entered span leaves host log, host stack, arena and all acceptance results identical to the uncut run (C02_cut_invisible, "
          "any stream, any initial world with a duplicate-free arena). Correspondence: real persist / serde_json round trip / new at "
          "every cut, persisted JSON compared with the model and with the bookkeeping; cut-vs-uncut runs compared on the real code.",
-    note=_RECV_NOTE + "Quiescence is stated on the receiver's entered map (equal to the guest's enter/exit balance for well-formed streams; that equality is exercised by the harness, not proved).",
+    note=_RECV_NOTE + "Quiescence is stated on the receiver's entered map; TT.Props.C02Quiescence proves that, within a lifetime, that map is exactly the guest's enter/exit balance for accepted streams with balanced exits and no drop of an entered span's last handle.",
     technique="Lean 4 proof (simulation invariant; restore∘persist = id up to the uncommitted set) + differential correspondence")
 MANIFEST_TEXT["C04"] = dict(
     text="Theorems over every history whose only well-formedness assumption is that the last handle of a span is not dropped while it "
